@@ -28,11 +28,13 @@ type Out struct {
 	mu     sync.Mutex
 	counts map[string]int
 	keys   map[string]int // disagreements per key (only the first few are written out in full)
+	dkeys  map[string]int // disagreements per key since the last summary line
 	Cur    int            // index of the current scenario
 	// CrashIsVerdict: a panic / fatal / timeout inside the handler is a verdict
 	// about the real code (C01, C07 and every property: "never crashes"). When
 	// false it is reported with the given key prefix all the same.
-	samples []json.RawMessage
+	samples     []json.RawMessage
+	samplesDone bool
 }
 
 // MaxPerKey bounds how many full disagreement records are written per key.
@@ -50,6 +52,10 @@ func (o *Out) Disagree(key, what string, detail interface{}) {
 	o.mu.Lock()
 	defer o.mu.Unlock()
 	o.keys[key]++
+	if o.dkeys == nil {
+		o.dkeys = map[string]int{}
+	}
+	o.dkeys[key]++
 	o.counts["disagreements"]++
 	if o.keys[key] > MaxPerKey {
 		return
@@ -95,15 +101,25 @@ func (o *Out) Fatal(what string) {
 	o.w.Flush()
 }
 
+// summary writes the counters accumulated since the previous summary line (the lines are additive) and flushes, so
+// that a worker that dies later loses nothing of what it has done so far.
 func (o *Out) summary() {
-	m := map[string]interface{}{"kind": "summary", "counts": o.counts, "per_key": o.keys}
-	if len(o.samples) > 0 {
+	o.mu.Lock()
+	defer o.mu.Unlock()
+	if o.dkeys == nil {
+		o.dkeys = map[string]int{}
+	}
+	m := map[string]interface{}{"kind": "summary", "counts": o.counts, "per_key": o.dkeys}
+	if len(o.samples) > 0 && !o.samplesDone {
 		m["samples"] = o.samples
+		o.samplesDone = true
 	}
 	b, _ := json.Marshal(m)
 	o.w.Write(b)
 	o.w.WriteByte('\n')
 	o.w.Flush()
+	o.counts = map[string]int{}
+	o.dkeys = map[string]int{}
 }
 
 // Handler processes one scenario line.
@@ -130,6 +146,47 @@ func PanicSite(stack []byte) string {
 		}
 	}
 	return "unknown"
+}
+
+// LoopSite names a hang or a stack overflow from a stack dump: when one function of the code under test occurs many
+// times in the dump (unbounded recursion) that function, prefixed by "recursion:", otherwise the innermost frame.
+func LoopSite(stack []byte) string {
+	counts := map[string]int{}
+	var order []string
+	for _, l := range strings.Split(string(stack), "\n") {
+		if strings.HasPrefix(l, "\t") {
+			continue
+		}
+		if i := strings.Index(l, "github.com/benoitkugler/webrender/"); i >= 0 {
+			s := l[i+len("github.com/benoitkugler/webrender/"):]
+			if j := strings.LastIndex(s, "("); j > 0 {
+				s = s[:j]
+			}
+			if strings.Contains(s, "verif") {
+				continue
+			}
+			if counts[s] == 0 {
+				order = append(order, s)
+			}
+			counts[s]++
+		}
+	}
+	max := 0
+	for _, n := range counts {
+		if n > max {
+			max = n
+		}
+	}
+	best := "" // (mutual recursion: the alphabetically first of the functions on the cycle)
+	for _, s := range order {
+		if max >= 6 && 2*counts[s] >= max && (best == "" || s < best) {
+			best = s
+		}
+	}
+	if best != "" {
+		return "recursion:" + best
+	}
+	return PanicSite(stack)
 }
 
 var numRe = regexp.MustCompile(`[0-9]+`)
@@ -219,8 +276,12 @@ func child(in, outp, shard string, from int, prog string, tmo time.Duration, lim
 			c, st, ln := cur, curStart, curLine
 			mu.Unlock()
 			if c >= 0 && time.Since(st) > tmo {
-				out.Disagree("timeout", fmt.Sprintf("scenario %d did not return within %s", c, tmo), json.RawMessage(ln))
-				out.counts["timeouts"]++
+				// name the hang by the innermost function of the code under test that is running
+				buf := make([]byte, 4<<20)
+				buf = buf[:runtime.Stack(buf, true)]
+				site := LoopSite(buf)
+				out.Disagree("timeout:"+site, fmt.Sprintf("scenario %d did not return within %s (running: %s)", c, tmo, site), json.RawMessage(ln))
+				out.Count("timeouts")
 				out.summary()
 				of.Sync()
 				os.Exit(3)
@@ -262,11 +323,14 @@ func child(in, outp, shard string, from int, prog string, tmo time.Duration, lim
 		cur = -1
 		mu.Unlock()
 		if p {
-			out.counts["panics"]++
+			out.Count("panics")
 			out.Disagree("panic:"+site+":"+msg, "panic in "+site+": "+msg, json.RawMessage(line))
 		}
-		out.counts["scenarios"]++
+		out.Count("scenarios")
 		done++
+		if done%1 == 0 { // (after every scenario: a worker that dies loses nothing)
+			out.summary()
+		}
 	}
 	out.summary()
 	return 0
@@ -340,6 +404,9 @@ func parent(name string, args []string, in, outp string, jobs int) int {
 						cls = MsgClass(e)
 					}
 					site := PanicSite([]byte(se))
+					if cls == "stack overflow" {
+						site = LoopSite([]byte(se))
+					}
 					if k := strings.Index(se, "WARNING: DATA RACE"); k >= 0 {
 						// a race-detector build with GORACE=halt_on_error=1: the first report kills the worker
 						kind, cls, site = "race", "data race", raceSite(se[k:])
